@@ -370,9 +370,9 @@ func atoi(s string) int {
 
 type nativeRecord struct {
 	boundary string
-	order    string            // section letters in order of appearance
-	section  map[byte]string   // content per letter (first occurrence)
-	problems []string          // structural problems
+	order    string          // section letters in order of appearance
+	section  map[byte]string // content per letter (first occurrence)
+	problems []string        // structural problems
 }
 
 var boundaryLine = regexp.MustCompile(`^--([A-Za-z0-9]+)-([A-Z])--$`)
@@ -510,15 +510,7 @@ func judge(k kase, e expectation, o observation, skipped *int64) []verdict {
 	if e.records < 0 {
 		*skipped++
 	} else if len(o.recs) != e.records {
-		cls := ""
-		switch {
-		case len(o.recs) > 1:
-			cls = "decision:more-than-one-record"
-		default:
-			cls = fmt.Sprintf("decision:engine=%s/%s:pattern=%q:real=%q:would-be=%q:audit-rule-fired=%v:want=%d:got=%d",
-				k.Engine, k.Src, relPatterns[k.Rel], e.status, e.wouldBe, len(e.audited) > 0, e.records, len(o.recs))
-		}
-		add(cls, "audit engine %s (%s), relevant status pattern %q, real status %q, would-be status %q: %d record(s) written, expected %d",
+		add(classifyDecision(k, e, len(o.recs)), "audit engine %s (%s), relevant status pattern %q, real status %q, would-be status %q: %d record(s) written, expected %d",
 			k.Engine, k.Src, relPatterns[k.Rel], e.status, e.wouldBe, len(o.recs), e.records)
 	}
 	// every record that was written must be intact
@@ -526,6 +518,53 @@ func judge(k kase, e expectation, o observation, skipped *int64) []verdict {
 		out = append(out, judgeRecord(k, e, r, skipped)...)
 	}
 	return out
+}
+
+// recordsOf runs k once more and says how many records it produced (-1 when
+// the configuration does not build): the differential probes of the classifier.
+func recordsOf(k kase) int {
+	h, err := build(k)
+	if err != nil {
+		return -1
+	}
+	defer scen.Close(h.w)
+	return len(h.execute(k).recs)
+}
+
+// classifyDecision names the root cause of a wrong number of records by the
+// narrowest explanation that the engine itself confirms: the same case with
+// the mode configured directly (is ctl at fault?), then the status source.
+func classifyDecision(k kase, e expectation, got int) string {
+	if got > 1 {
+		return "decision:more-than-one-record"
+	}
+	if k.Src != "conf" {
+		direct := k
+		direct.Src, direct.Base = "conf", ""
+		if recordsOf(direct) == e.records {
+			return "decision:ctl-auditEngine-in-phase-" + strings.TrimPrefix(k.Src, "ctl") + "-not-honoured"
+		}
+	}
+	switch k.Engine {
+	case "On":
+		return "decision:engine-On-no-record"
+	case "Off":
+		return "decision:engine-Off-record-written"
+	}
+	re := regexp.MustCompile(relPatterns[k.Rel])
+	switch {
+	case k.Itr != 0 && k.DetOnly:
+		responded := ""
+		if k.Status != 0 {
+			responded = fmt.Sprint(k.Status)
+		}
+		if b2i(re.MatchString(responded)) == got {
+			return "decision:relevantonly-would-be-status-of-detection-only-interruption-ignored"
+		}
+	case k.Itr != 0:
+		return "decision:relevantonly-status-of-interruption-ignored"
+	}
+	return fmt.Sprintf("decision:relevantonly:status-relevant=%v:records=%d", e.records == 1, got)
 }
 
 func judgeRecord(k kase, e expectation, r captured, skipped *int64) []verdict {
@@ -771,7 +810,10 @@ func forEachConfig(thorough bool, emit func(k kase)) {
 		progs = append(progs, prog{one, 0, false}, prog{one, 1, false}, prog{one, 1, true})
 		for _, f2 := range second {
 			two := []int{f1, f2}
-			progs = append(progs, prog{two, 0, false}, prog{two, 1, false}, prog{two, 2, false}, prog{two, 1, true}, prog{two, 2, true})
+			progs = append(progs, prog{two, 0, false}, prog{two, 1, false}, prog{two, 2, true})
+			if thorough {
+				progs = append(progs, prog{two, 2, false}, prog{two, 1, true})
+			}
 		}
 	}
 	for _, en := range engines {
@@ -790,9 +832,9 @@ func forEachConfig(thorough bool, emit func(k kase)) {
 func requestsOf(thorough bool, k kase, emit func(k kase)) {
 	for _, st := range statuses {
 		for p := range payloads {
-			if !thorough && p != 0 && st == 404 {
-				// quick: payload bytes do not interact with the decision; they are
-				// crossed with the statuses none and 200 (and 404 with the plain one)
+			if !thorough && p != 0 && st != 200 {
+				// quick: payload bytes do not interact with the decision; the plain
+				// payload is crossed with every status, the others go with status 200
 				continue
 			}
 			k.Status, k.Payload = st, p
